@@ -314,7 +314,7 @@ struct cache2<S, std::void_t<decltype(std::declval<S&>().internal_func_ptr_map)>
   static std::string names(S& s)
   {
     std::string r;
-    for (auto& e : s.internal_func_ptr_map) r += e.first + ":";
+    for (auto& e : s.internal_func_ptr_map) r += e.first + "=" + std::to_string(reinterpret_cast<uintptr_t>(e.second)) + ":";
     return r;
   }
 };
@@ -332,7 +332,8 @@ static std::string key(World& w)
   // implementation side: symbol cache and key list sizes, status word
   for (int i = 0; i < 3; i++) {
     k += "|";
-    for (auto& e : w.s[i].func_ptr_map) k += e.first + ":";          // by content, not by size
+    // by content (name AND cached address): two states that cache the same name with different addresses have different futures
+    for (auto& e : w.s[i].func_ptr_map) k += e.first + "=" + std::to_string(reinterpret_cast<uintptr_t>(e.second)) + ":";
     k += "/" + cache2_names(w.s[i]);
     k += "," + std::to_string(w.s[i].callback_keys.size()) + "," + std::to_string((int)w.s[i].sandbox_created.load());
   }
